@@ -437,6 +437,29 @@ def stream_ps_random(ctx, ad, count):
             ctx.count('ps_mul', (a, b, form), shared > 0, sample=dict(a=str(pa), b=str(pb), product=str(r)))
             R['mul'].add(f'({c_ps(a)}, {c_ps(b)}, {c_ps(out)})', f'{a} * {b} (form {form}) -> {out}')
             check_product_matrix(ctx, ad, 'ps_mul', [a, b], r, qs)
+        # --- every way of reading the matrix off a string: matrix, sparse_matrix, unitary, simulation of the operation, decomposition
+        qm = [ad.q(k) for k in qs]
+        ctx.count('ps_matrix_views', (a, 'views'), len(a[1]) > 0)
+        bad = []
+        if not close(pa.matrix(qm), ma_ref := ad.mat(a, qs)):
+            bad.append('matrix')
+        if not close(pa.sparse_matrix(qm).toarray(), ma_ref):
+            bad.append('sparse_matrix')
+        if a[0] in UNITS:
+            own = [q.x for q in pa.qubits]
+            if not close(cirq.unitary(pa), ad.mat(a, own)):
+                bad.append('unitary')
+            if own:
+                circ_u = cirq.Circuit(pa).unitary(qubit_order=qm)
+                dec_u = cirq.Circuit(cirq.decompose_once(pa)).unitary(qubit_order=qm)
+                if not close(circ_u, ma_ref) or not close(dec_u, ma_ref):
+                    bad.append('apply_unitary/decompose')
+            dg = ad.dps((a[0], mask_of(a[1], n)))
+            if not close(cirq.unitary(dg), ma_ref) or (n and not close(cirq.Circuit(dg.on(*qm)).unitary(qubit_order=qm), ma_ref)):
+                bad.append('dense unitary')
+        if bad:
+            ctx.violation('ps_matrix_views:' + ','.join(bad), f'{a}: {bad} disagree with the Kronecker product of the letters',
+                          dict(kind='views', a=ser_ps(a), qubits=qs))
         # --- numbers
         x = rand_coef(rng)
         xv = cz(x) if x[1] != 0 or rng.random() < 0.5 else float(x[0])
@@ -775,7 +798,7 @@ def stream_sums(ctx, ad, count):
         ctx.count('psum_from_strings', ta, len(ta) > 1, sample=dict(terms=[str(ad.ps(t)) for t in ta], sum=str(A_)))
         R['from'].add(f'({c_list(ta, c_ps)}, {c_sum(sum_terms_of(ad, A_))})', f'from_pauli_strings({ta}) -> {ad.sum_out(A_)}')
         MA, MB = sum_matrix(ad, ta, qs), sum_matrix(ad, tb, qs)
-        if not close(A_.matrix(qm), MA):
+        if not close(A_.matrix(qm), MA) or not close(A_.sparse_matrix(qm).toarray(), MA):
             ctx.violation('psum_matrix', f'PauliSum.from_pauli_strings({ta}).matrix differs from the sum of the matrices',
                           dict(kind='psum', op='from', a=[ser_ps(t) for t in ta], b=[], qubits=qs))
         # binary operators in all their spellings
